@@ -736,7 +736,11 @@ func driverMain() int {
 			cmd := limitedCommand(os.Args[0], "-test.run", "^TestWorker$", "-test.count", "1", "-test.timeout", "0")
 			cmd.Env = append(os.Environ(), "VSIM_MODE=worker", fmt.Sprintf("VSIM_WORKER=%d", w), fmt.Sprintf("VSIM_WORKERS=%d", nw),
 				"VSIM_OUTDIR="+outDir, "VSIM_REPLAYDIR="+replayDir, fmt.Sprintf("VSIM_BUDGET_MS=%d", budget.Milliseconds()),
-				"VSIM_TIER="+tier, "GOMAXPROCS=2", fmt.Sprintf("VERIF_SEED=%d", seed))
+				"VSIM_TIER="+tier, fmt.Sprintf("GOMAXPROCS=%d", 1+w%2), "GOMEMLIMIT=1500MiB", fmt.Sprintf("VERIF_SEED=%d", seed))
+			// (even workers run on one P: after an unbuffered hand-over the sending
+			// goroutine runs on until it blocks - the reader gets ahead of the parser;
+			// with two Ps the receiver usually wins. Outcomes on a correct tree do not
+			// depend on it - see the determinism self-test - but defects do.)
 			var stderr bytes.Buffer
 			cmd.Stderr = &stderr
 			cmd.Stdout = &stderr
@@ -767,8 +771,8 @@ func driverMain() int {
 			// the worker died: a panic on a library goroutine kills the process
 			curb, _ := os.ReadFile(filepath.Join(outDir, fmt.Sprintf("worker-%d.cur", w)))
 			tail := r.stderr
-			if len(tail) > 6000 {
-				tail = tail[len(tail)-6000:]
+			if len(tail) > 9000 {
+				tail = tail[:3000] + "\n[...]\n" + tail[len(tail)-6000:]
 			}
 			if vb, e := os.ReadFile(filepath.Join(outDir, fmt.Sprintf("worker-%d.viol.jsonl", w))); e == nil {
 				for _, line := range bytes.Split(vb, []byte{'\n'}) {
